@@ -25,6 +25,8 @@ pub struct LockTable {
     pub readers: [u8; NLOCK],
     pub writer: [bool; NLOCK],
     pub class: [u8; NLOCK],
+    /// contract mode: acquiring this lock is outside the harness's scope (allocator cut)
+    pub cut: [bool; NLOCK],
     pub next: usize,
     pub interference: bool,
 }
@@ -33,6 +35,7 @@ pub static mut LOCKS: LockTable = LockTable {
     readers: [0; NLOCK],
     writer: [false; NLOCK],
     class: [0; NLOCK],
+    cut: [false; NLOCK],
     next: 1,
     interference: false,
 };
@@ -53,6 +56,18 @@ pub fn set_interference(on: bool) -> bool {
     old
 }
 
+/// Contract mode: any acquisition of lock `id` is a reported failure and ends the path (the
+/// harness bounds sizes so that the allocator is never needed; symex does not prune on that).
+pub fn set_cut(id: usize) {
+    table().cut[id] = true;
+}
+#[inline]
+fn check_cut(id: usize) {
+    if table().cut[id] {
+        assert!(false, "VERIF: bound exceeded: allocator (layout lock) reached in contract mode");
+        crate::assume(false);
+    }
+}
 pub fn set_class(id: usize, class: u8) {
     table().class[id] = class;
 }
@@ -112,6 +127,7 @@ impl RawLock {
     #[inline]
     pub fn acquire_shared(&self) {
         let id = self.id();
+        check_cut(id);
         let t = table();
         ghost::tap_request(id, false);
         if t.writer[id] {
@@ -130,6 +146,7 @@ impl RawLock {
     #[inline]
     pub fn acquire_excl(&self) {
         let id = self.id();
+        check_cut(id);
         let t = table();
         ghost::tap_request(id, true);
         if t.writer[id] || t.readers[id] != 0 {
